@@ -1432,11 +1432,274 @@ Qed.
 Lemma pi_same_eq a b : pi_same a b = true -> a = b.
 Proof.
   unfold pi_same. intros H. repeat (apply andb_true_iff in H; destruct H as (H & ?)).
-  destruct a, b. cbn [p_ver p_code p_mid p_sw p_mver p_ser p_cert p_load] in *.
+  destruct a as [a1 a2 a3 a4 a5 a6 a7 a8], b as [b1 b2 b3 b4 b5 b6 b7 b8]. cbn [p_ver p_code p_mid p_sw p_mver p_ser p_cert p_load] in *.
   repeat match goal with H : (_ =? _) = true |- _ => apply Z.eqb_eq in H | H : list_eqb _ _ = true |- _ => apply list_eqb_eq in H end. subst. reflexivity.
 Qed.
 Lemma pi_norm_nrm p : nrm p -> pi_norm p = p.
 Proof.
-  intros (H1 & H2 & H3). unfold pi_norm. destruct p. cbn [p_ver p_code p_mid p_sw p_mver p_ser p_cert p_load] in *.
-  destruct (Z.eqb_spec p_ver 65535); [lia|]. destruct (Z.eqb_spec p_cert 255); [lia|]. destruct (Z.eqb_spec p_load 255); [lia|]. reflexivity.
+  intros (H1 & H2 & H3). unfold pi_norm. destruct p as [a1 a2 a3 a4 a5 a6 a7 a8]. cbn [p_ver p_code p_mid p_sw p_mver p_ser p_cert p_load] in *.
+  destruct (Z.eqb_spec a1 65535); [lia|]. destruct (Z.eqb_spec a7 255); [lia|]. destruct (Z.eqb_spec a8 255); [lia|]. reflexivity.
 Qed.
+
+(* the mirror changes for the devices of source a, the content view does not *)
+Lemma inv_remap b (T:tview) M a f : InvT b T M -> (forall d, a_name (f d) = a_name d /\ a_src (f d) = a_src d) ->
+  (forall d e, In d M -> a_name d <> 0 -> a_src d = a -> T (Z.to_nat a) = Some e -> dev_ok b d e -> dev_ok b (f d) e) ->
+  InvT b T (at_src a f M).
+Proof.
+  intros (U & Mw & Hp & Hd) Hf Hdev. split; [exact U|]. split; [apply at_src_wf; [intros d; apply Hf|exact Mw]|]. split; [exact Hp|].
+  intros d' Hin Hn0. destruct (at_src_in _ _ _ _ Hin) as (d & Hdin & ->).
+  destruct (Z.eqb_spec (a_src d) a) as [Hsd|Hsd].
+  - destruct (Hf d) as (Hfn & Hfs). rewrite Hfn in Hn0. destruct (Hd d Hdin Hn0) as (x & Hx & Hok).
+    exists x. rewrite Hfs. split; [exact Hx|]. apply Hdev; auto. rewrite <- Hsd. exact Hx.
+  - apply Hd; auto.
+Qed.
+
+Lemma set_pi_keep p d : a_name (set_pi p d) = a_name d /\ a_src (set_pi p d) = a_src d.
+Proof. unfold set_pi. destruct (a_pi d); auto. Qed.
+Lemma set_ci_keep c d : a_name (set_ci c d) = a_name d /\ a_src (set_ci c d) = a_src d.
+Proof. auto. Qed.
+Lemma set_list_keep k l d : a_name (set_list k l d) = a_name d /\ a_src (set_list k l d) = a_src d.
+Proof. unfold set_list. destruct (k =? 0); auto. Qed.
+
+Lemma dev_ok_set_pi_some b d e p p0 : a_pi d = Some p0 -> dev_ok b d e -> dev_ok b (set_pi p d) e.
+Proof. intros Ea H. unfold set_pi. rewrite Ea. exact H. Qed.
+
+Definition step_hyp (st:state) (M:mirror) (m:bmsg) : Prop :=
+  b_pgn m = 60928 -> 0 <= b_src m < 254 -> s_name (pl m) <> 0 ->
+  (forall d, holder M (b_src m) = Some d -> a_name d <> s_name (pl m)) ->
+  forall e, entry_at st (b_src m) = Ok (Some e) -> e_name e <> s_name (pl m).
+
+Lemma inv_step b st st' M m now : WF st -> InvT b (slot st) M -> msg_eff st st' m now -> (b = true -> step_hyp st M m) ->
+  InvT b (slot st') (s_step M m).
+Proof.
+  intros W I Heff Hhyp. unfold s_step. destruct Heff as [(Hout & ->)|(s & Hsrc & Hs & st1 & W1 & Hadd & Hrest)].
+  { destruct (Z.leb_spec 0 (b_src m)); destruct (Z.ltb_spec (b_src m) 254); cbn [andb negb]; try exact I. lia. }
+  destruct (Z.leb_spec 0 (b_src m)); [|lia]. destruct (Z.ltb_spec (b_src m) 254); [|lia]. cbn [andb negb].
+  assert (I1 : InvT b (slot st1) M).
+  { destruct Hadd as [->|(Hnone & _ & _ & _ & Hsl)]; [exact I|]. eapply inv_add; [exact I|exact Hnone| | |exact Hsl]; [reflexivity|apply nrm_clear]. }
+  rewrite Hsrc.
+  destruct Hrest as [(-> & Hnc & Hwhy)|(st2 & W2 & Hmain & Hreq)].
+  - (* nothing more happens *)
+    destruct (Z.eqb_spec (b_pgn m) 60928) as [Hc|_]; [exfalso; apply Hnc; exact Hc|].
+    destruct Hwhy as [(-> & Hnone)|Hni].
+    + assert (Hrm : forall f, (forall d, a_name (f d) = a_name d /\ a_src (f d) = a_src d) -> InvT b (slot st) (at_src (Z.of_nat s) f M)).
+      { intros f Hf. apply inv_remap; [exact I|exact Hf|]. intros d e _ _ _ He. rewrite Nat2Z.id in He. congruence. }
+      destruct (b_pgn m =? 126996); [destruct (s_prod (pl m)); [apply Hrm; apply set_pi_keep|exact I]|].
+      destruct (b_pgn m =? 126998); [apply Hrm; apply set_ci_keep|].
+      destruct (b_pgn m =? 126464); [destruct (s_list (pl m)) as [[k l]|]; [apply Hrm; apply set_list_keep|exact I]|exact I].
+    + unfold is_info_pgn, PGN_prod, PGN_conf, PGN_list in Hni. apply orb_false_iff in Hni. destruct Hni as (Hni & H3). apply orb_false_iff in Hni. destruct Hni as (H1 & H2).
+      rewrite H1, H2, H3. exact I1.
+  - eapply inv_req_only; [|exact Hreq]. unfold main_eff, PGN_claim, PGN_prod, PGN_conf, PGN_list in Hmain.
+    destruct (Z.eqb_spec (b_pgn m) 60928) as [Hc|Hc].
+    + (* claim: no placeholder was made *)
+      destruct Hmain as (Hce & _ & _).
+      assert (Hst1 : st1 = st) by (destruct Hadd as [->|(_ & Hnc & _)]; [reflexivity|exfalso; apply Hnc; exact Hc]). subst st1.
+      rewrite s_name_eq. apply (inv_claim b (slot st) (slot st2) M s (claim_name m) now I Hce Hs).
+      intros Hb Hcn Hhold e He. rewrite <- s_name_eq in *. rewrite <- Hsrc in Hhold.
+      apply (Hhyp Hb Hc ltac:(lia) Hcn Hhold e). rewrite entry_at_slot by (auto; lia). rewrite Hsrc, Nat2Z.id. f_equal. exact He.
+    + destruct (Z.eqb_spec (b_pgn m) 126996) as [Hp|Hp].
+      * (* product information *)
+        rewrite s_prod_eq. destruct Hmain as (_ & [(-> & Hwhy)|(e & raw & P & He & Hpil & Hraw & HP & Hsl)]).
+        -- destruct (parse_pi m) as [raw|] eqn:Eraw; [|exact I1]. apply inv_remap; [exact I1|apply set_pi_keep|].
+           intros d e _ _ _ He Hok. rewrite Nat2Z.id in He. destruct Hwhy as [Hn|[(e' & He' & Hpil)|Hn]]; [congruence| |discriminate].
+           rewrite He in He'. injection He' as <-. destruct (a_pi d) as [p0|] eqn:Ea; [eapply dev_ok_set_pi_some; eauto|].
+           destruct Hok as (H1 & H2 & H3 & H4). unfold set_pi. rewrite Ea.
+           split; [exact H1|]. split; [exact H2|]. split; [exact H3|]. intros Hb. destruct (H4 Hb) as (H5 & _). rewrite (H5 Ea) in Hpil. discriminate.
+        -- rewrite Hraw. destruct I1 as (U1 & Mw1 & Hp1 & Hd1).
+           apply (inv_one b (slot st1) (slot st2) M s e _ (set_pi raw) (conj U1 (conj Mw1 (conj Hp1 Hd1))) Hs He Hsl); [reflexivity| |apply set_pi_keep|].
+           ++ cbn [with_pi e_pi]. destruct HP as [(_ & -> & _)|(-> & _)]; [exact (Hp1 s e He)|apply nrm_norm].
+           ++ intros d _ _ _ Hok. destruct (a_pi d) as [p0|] eqn:Ea.
+              ** destruct Hok as (H1 & H2 & H3 & H4). unfold set_pi. rewrite Ea.
+                 split; [exact H1|]. split; [exact H2|]. split; [exact H3|]. intros Hb. destruct (H4 Hb) as (_ & H6). destruct (H6 _ Ea) as (_ & Hx). congruence.
+              ** destruct Hok as (H1 & H2 & H3 & H4). unfold set_pi. rewrite Ea.
+                 split; [exact H1|]. split; [exact H2|]. split; [exact H3|]. intros Hb. cbn [a_pi with_pi e_pil e_pi]. split; [discriminate|].
+                 intros p Ep. injection Ep as <-. split; [|reflexivity]. rewrite s_reported_eq.
+                 destruct HP as [(Hsame & -> & _)|(-> & _)]; [|reflexivity]. apply pi_same_eq in Hsame. subst raw. symmetry. apply pi_norm_nrm. exact (Hp1 s e He).
+      * destruct (Z.eqb_spec (b_pgn m) 126998) as [Hf|Hf].
+        -- (* configuration information: nothing the proved statements speak about *)
+           destruct Hmain as (_ & [->|(e & e2 & He & Hco & _ & Hsl)]).
+           ++ apply inv_remap; [exact I1|apply set_ci_keep|]. intros d e _ _ _ _ Hok. exact Hok.
+           ++ destruct I1 as (U1 & Mw1 & Hp1 & Hd1).
+              apply (inv_one b (slot st1) (slot st2) M s e e2 _ (conj U1 (conj Mw1 (conj Hp1 Hd1))) Hs He Hsl); [rewrite Hco; reflexivity| |apply set_ci_keep|].
+              ** rewrite Hco. cbn [with_conf e_pi]. exact (Hp1 s e He).
+              ** intros d _ _ _ Hok. rewrite Hco. exact Hok.
+        -- destruct (Z.eqb_spec (b_pgn m) 126464) as [Hg|Hg].
+           ++ (* PGN lists *)
+              destruct Hmain as (_ & [(-> & Hnone)|(e & e2 & He & _ & Hlo & Hsl & Hmatch)]).
+              ** destruct (s_list (pl m)) as [[k l]|]; [|exact I1]. apply inv_remap; [exact I1|apply set_list_keep|].
+                 intros d e _ _ _ He. rewrite Nat2Z.id in He. congruence.
+              ** destruct I1 as (U1 & Mw1 & Hp1 & Hd1). pose proof (conj U1 (conj Mw1 (conj Hp1 Hd1))) as I1.
+                 destruct (s_list (pl m)) as [[k l]|].
+                 --- apply (inv_one b (slot st1) (slot st2) M s e e2 _ I1 Hs He Hsl); [rewrite Hlo; reflexivity| |apply set_list_keep|].
+                     +++ rewrite Hlo. cbn [with_lists e_pi]. exact (Hp1 s e He).
+                     +++ intros d _ _ _ (H1 & H2 & H3 & H4). unfold set_list. destruct (k =? 0); destruct Hmatch as (Hm1 & Hm2).
+                         *** split; [rewrite Hlo; exact H1|]. cbn [a_tx a_rx a_pi]. split; [intros l0 E; injection E as <-; exact Hm1|]. split; [rewrite Hm2; exact H3|].
+                             rewrite Hlo. exact H4.
+                         *** split; [rewrite Hlo; exact H1|]. cbn [a_tx a_rx a_pi]. split; [rewrite Hm2; exact H2|]. split; [intros l0 E; injection E as <-; exact Hm1|].
+                             rewrite Hlo. exact H4.
+                 --- subst e2. rewrite <- (at_src_id (Z.of_nat s) M).
+                     apply (inv_one b (slot st1) (slot st2) M s e e _ I1 Hs He Hsl); [reflexivity|exact (Hp1 s e He)|auto|auto].
+           ++ eapply inv_req_only; [exact I1|exact Hmain].
+Qed.
+
+(* ---------- reachable states ---------- *)
+Lemma slot_init j : slot init_state j = None.
+Proof.
+  unfold slot, sref, init_state. cbn [sources]. destruct (nth_error (repeat None 254) j) as [o|] eqn:E; [|reflexivity].
+  apply nth_error_In in E. apply repeat_spec in E. subst. reflexivity.
+Qed.
+Lemma inv_init b : InvT b (slot init_state) [].
+Proof.
+  split; [intros i j ei ej Hi; rewrite slot_init in Hi; discriminate|]. split; [split; [constructor|intros d []]|].
+  split; [intros j e Hj; rewrite slot_init in Hj; discriminate|intros d []].
+Qed.
+
+Lemma reach b : forall h st M st', WF st -> InvT b (slot st) M -> (b = true -> no_return h st M) -> run h st = Ok st' ->
+  WF st' /\ InvT b (slot st') (s_run h M).
+Proof.
+  induction h as [|[[now ok] m] h IH]; intros st M st' W I Hnr E; cbn [run s_run] in *.
+  - injection E as <-. auto.
+  - destruct (handle_msg_ok now ok m st W) as (st1 & rq & E1 & W1 & Heff). rewrite E1 in E. cbn [bind fst] in E.
+    apply (IH st1 (s_step M m) st' W1); [|intros Hb; specialize (Hnr Hb); cbn [no_return] in Hnr; rewrite E1 in Hnr; tauto|exact E].
+    apply (inv_step b st st1 M m now W I Heff). intros Hb. specialize (Hnr Hb). cbn [no_return] in Hnr. exact (proj1 Hnr).
+Qed.
+Lemma reach0 h st : run h init_state = Ok st -> WF st /\ InvT false (slot st) (s_run h []).
+Proof. intros E. apply (reach false h init_state [] st wf_init (inv_init false)); [discriminate|exact E]. Qed.
+
+Theorem one_entry_per_name : one_entry_per_name_stmt.
+Proof.
+  intros h st E i j ei ej Hi Hj Hn Hnz. destruct (reach0 h st E) as (W & U & _).
+  destruct (entry_at_some _ _ _ W Hi) as (Hir & Hsi). destruct (entry_at_some _ _ _ W Hj) as (Hjr & Hsj).
+  assert (Z.to_nat i = Z.to_nat j) by (eapply U; eauto). lia.
+Qed.
+
+Lemma dev_lookup b st M d : WF st -> InvT b (slot st) M -> In d M -> a_name d <> 0 ->
+  0 <= a_src d < 254 /\ by_name st (a_name d) = Ok (Some (a_src d)) /\
+  exists e, entry_at st (a_src d) = Ok (Some e) /\ e_src e = a_src d /\ dev_ok b d e.
+Proof.
+  intros W (U & (_ & Hr) & _ & Hd) Hin Hn0. pose proof (Hr d Hin) as Hrd. destruct (Hd d Hin Hn0) as (e & He & Hok).
+  destruct (slot_inv _ _ _ He) as (oid & Hsr & Hhp). destruct (wf_slot _ _ _ W Hsr) as (e0 & He0 & _ & Hsrc & _).
+  rewrite Hhp in He0. injection He0 as <-. rewrite Z2Nat.id in Hsrc by lia.
+  split; [exact Hrd|]. split.
+  - unfold by_name. destruct (find_by_name_spec st (a_name d) W) as [(k & oid2 & e2 & E & Hk & He2 & Hsl2 & Hn2)|[E Hno]]; rewrite E; cbn [bind].
+    + rewrite (deref_ok _ _ _ He2). cbn [bind]. destruct Hok as (Hname & _).
+      assert (k = Z.to_nat (a_src d)) by (eapply U; eauto; congruence). subst k. rewrite He in Hsl2. injection Hsl2 as <-. rewrite Hsrc. reflexivity.
+    + exfalso. destruct Hok as (Hname & _). exact (Hno _ _ He Hname).
+  - exists e. rewrite entry_at_slot by (auto; lia). rewrite He. auto.
+Qed.
+
+Theorem lookup_agrees : lookup_agrees_stmt.
+Proof.
+  intros h st E d Hin Hn0. destruct (reach0 h st E) as (W & I). destruct (dev_lookup false st _ d W I Hin Hn0) as (_ & Hbn & e & He & Hsrc & Hname & _).
+  split; [exact Hbn|]. exists e. auto.
+Qed.
+
+Theorem info_lists : info_lists_stmt.
+Proof.
+  intros h st E d Hin Hn0. destruct (reach0 h st E) as (W & I). destruct (dev_lookup false st _ d W I Hin Hn0) as (_ & _ & e & He & _ & _ & Htx & Hrx & _).
+  exists e. auto.
+Qed.
+
+Theorem info_prod_partial : info_prod_partial_stmt.
+Proof.
+  intros h st E Hnr d Hin Hn0. destruct (reach true h init_state [] st wf_init (inv_init true) (fun _ => Hnr) E) as (W & I).
+  destruct (dev_lookup true st _ d W I Hin Hn0) as (_ & _ & e & He & _ & _ & _ & _ & Hpi).
+  exists e. split; [exact He|]. intros p Hp. destruct (Hpi eq_refl) as (_ & H). exact (proj1 (H p Hp)).
+Qed.
+
+(* ---------- the list-updated indication ---------- *)
+Definition pubv (o:option entry) := match o with Some e => if e_name e =? 0 then None else Some (pub e) | None => None end.
+Lemma obs_slot st s : WF st -> obs st s = if (0 <=? s) && (s <? 254) then pubv (slot st (Z.to_nat s)) else None.
+Proof.
+  intros W. unfold obs. destruct (Z.leb_spec 0 s); destruct (Z.ltb_spec s 254); cbn [andb].
+  - rewrite entry_at_slot by (auto; lia). reflexivity.
+  - rewrite entry_at_high by lia. reflexivity.
+  - destruct (entry_at st s) as [[e|]| |] eqn:E; try reflexivity. destruct (entry_at_some _ _ _ W E). lia.
+  - rewrite entry_at_high by lia. reflexivity.
+Qed.
+Lemma pubv_eqv e e1 : eqv e e1 -> pubv (Some e1) = pubv (Some e).
+Proof. intros ->. reflexivity. Qed.
+Lemma pubv_req_only st st' : req_only st st' -> forall j, pubv (slot st' j) = pubv (slot st j).
+Proof.
+  intros (_ & _ & _ & H) j. specialize (H j). destruct (slot st j) as [e|]; [|rewrite H; reflexivity].
+  destruct H as (e1 & -> & V). apply pubv_eqv. exact V.
+Qed.
+
+Lemma flag_eff st st' m now : WF st -> WF st' -> msg_eff st st' m now -> updated st' = true \/ forall s, obs st' s = obs st s.
+Proof.
+  intros W W' [(_ & ->)|(s & Hsrc & Hs & st1 & W1 & Hadd & Hrest)]; [right; reflexivity|].
+  assert (H1 : updated st1 = updated st /\ forall j, pubv (slot st1 j) = pubv (slot st j)).
+  { destruct Hadd as [->|(Hnone & _ & Hu & _ & Hsl)]; [auto|]. split; [exact Hu|]. intros j. rewrite Hsl. unfold T_set.
+    destruct (Nat.eqb_spec j s) as [->|_]; [rewrite Hnone; reflexivity|reflexivity]. }
+  destruct H1 as (Hu1 & Hp1).
+  assert (Hfin : forall st2, WF st2 -> (updated st2 = true \/ (forall j, pubv (slot st2 j) = pubv (slot st1 j))) -> req_only st2 st' ->
+            updated st' = true \/ forall s, obs st' s = obs st s).
+  { intros st2 W2 [Hu|Hp] R; [left; destruct R as (_ & _ & -> & _); exact Hu|]. right. intros x. rewrite !obs_slot by assumption.
+    destruct ((0 <=? x) && (x <? 254)); [|reflexivity]. rewrite (pubv_req_only _ _ R), Hp, Hp1. reflexivity. }
+  destruct Hrest as [(-> & _)|(st2 & W2 & Hmain & Hreq)].
+  - right. intros x. rewrite !obs_slot by assumption. destruct ((0 <=? x) && (x <? 254)); [|reflexivity]. apply Hp1.
+  - apply (Hfin st2 W2); [|exact Hreq]. unfold main_eff in Hmain.
+    destruct (b_pgn m =? PGN_claim); [destruct Hmain as (_ & [Hu| ->] & _); [left; exact Hu|right; reflexivity]|].
+    destruct (b_pgn m =? PGN_prod).
+    { destruct Hmain as (_ & [(-> & _)|(e & raw & P & He & _ & _ & [(_ & -> & _)|(_ & Hu)] & Hsl)]); [right; reflexivity| |left; exact Hu].
+      right. intros j. rewrite Hsl. unfold T_set. destruct (Nat.eqb_spec j s) as [->|_]; [rewrite He; reflexivity|reflexivity]. }
+    destruct (b_pgn m =? PGN_conf); [destruct Hmain as (_ & [->|(e & e2 & _ & _ & Hu & _)]); [right; reflexivity|left; exact Hu]|].
+    destruct (b_pgn m =? PGN_list); [destruct Hmain as (_ & [(-> & _)|(e & e2 & _ & Hu & _)]); [right; reflexivity|left; exact Hu]|].
+    right. apply pubv_req_only. exact Hmain.
+Qed.
+
+Theorem updated_flag : updated_flag_stmt.
+Proof.
+  intros h st E now ok m st' rq Em (s & Hs). destruct (reach0 h st E) as (W & _).
+  destruct (handle_msg_ok now ok m st W) as (st1 & rq1 & E1 & W1 & Heff). rewrite Em in E1. injection E1 as <- <-.
+  destruct (flag_eff st st' m now W W1 Heff) as [Hu|Hsame]; [exact Hu|]. exfalso. apply Hs. apply Hsame.
+Qed.
+
+(* ---------- the full-strength product information statement is refuted (known finding "parked-device") ---------- *)
+(* NAME 0x1234 claims 10 and sends product information A; NAME 0xC0FFEE0000000001 takes address 10 over, the list parks 0x1234 in the free
+   slot 0 as if it had address 0; 0x1234 claims address 0: taken for a repetition; product information B from address 0 is ignored. *)
+Definition wit_piA : list Z := [52;8;9;3;77;111;100;101;108;32;65;255;255;255;255;255;255;255;255;255;255;255;255;255;255;255;255;255;255;255;255;255;255;255;255;255;83;87;32;49;46;48;255;255;255;255;255;255;255;255;255;255;255;255;255;255;255;255;255;255;255;255;255;255;255;255;255;255;86;49;255;255;255;255;255;255;255;255;255;255;255;255;255;255;255;255;255;255;255;255;255;255;255;255;255;255;255;255;255;255;83;69;82;45;48;48;48;49;255;255;255;255;255;255;255;255;255;255;255;255;255;255;255;255;255;255;255;255;255;255;255;255;1;2].
+Definition wit_piB : list Z := [53;8;10;3;77;111;100;101;108;32;66;255;255;255;255;255;255;255;255;255;255;255;255;255;255;255;255;255;255;255;255;255;255;255;255;255;83;87;32;50;46;48;255;255;255;255;255;255;255;255;255;255;255;255;255;255;255;255;255;255;255;255;255;255;255;255;255;255;86;50;255;255;255;255;255;255;255;255;255;255;255;255;255;255;255;255;255;255;255;255;255;255;255;255;255;255;255;255;255;255;83;69;82;45;48;48;48;50;255;255;255;255;255;255;255;255;255;255;255;255;255;255;255;255;255;255;255;255;255;255;255;255;2;3].
+Definition wit_hist : list event :=
+  [ (1000, true, {| b_pgn := 60928; b_src := 10; b_data := [52;18;0;0;0;0;0;0] |});
+    (1005, true, {| b_pgn := 126996; b_src := 10; b_data := wit_piA |});
+    (1010, true, {| b_pgn := 60928; b_src := 10; b_data := [1;0;0;0;0;238;255;192] |});
+    (1015, true, {| b_pgn := 60928; b_src := 0; b_data := [52;18;0;0;0;0;0;0] |});
+    (1020, true, {| b_pgn := 126996; b_src := 0; b_data := wit_piB |}) ].
+
+Theorem info_prod_refuted : ~ info_prod_stmt.
+Proof.
+  intros H. destruct (run wit_hist init_state) as [st| |] eqn:E; [|vm_compute in E; discriminate|vm_compute in E; discriminate].
+  specialize (H wit_hist st E).
+  assert (Hin : exists d, In d (s_run wit_hist []) /\ a_name d = 4660 /\ a_src d = 0 /\ a_pi d = s_prod wit_piB).
+  { eexists. split; [vm_compute; left; reflexivity|]. vm_compute. auto. }
+  destruct Hin as (d & Hin & Hn & Hs & Hpi). destruct (H d Hin ltac:(rewrite Hn; discriminate)) as (e & He & Hp).
+  rewrite Hs in He. vm_compute in E. injection E as <-. vm_compute in He. injection He as <-.
+  vm_compute in Hpi. specialize (Hp _ Hpi). vm_compute in Hp. discriminate.
+Qed.
+
+(* the restricted statement does apply to histories with takeovers: the same history with the displaced device returning to address 5 *)
+Definition nv_hist : list event :=
+  [ (1000, true, {| b_pgn := 60928; b_src := 10; b_data := [52;18;0;0;0;0;0;0] |});
+    (1005, true, {| b_pgn := 126996; b_src := 10; b_data := wit_piA |});
+    (1010, true, {| b_pgn := 60928; b_src := 10; b_data := [1;0;0;0;0;238;255;192] |});
+    (1015, true, {| b_pgn := 60928; b_src := 5; b_data := [52;18;0;0;0;0;0;0] |});
+    (1020, true, {| b_pgn := 126996; b_src := 5; b_data := wit_piB |});
+    (1030, true, {| b_pgn := 126464; b_src := 5; b_data := [0; 0; 238; 1; 20; 240; 1] |}) ].
+Lemma nv_no_return : no_return nv_hist init_state [].
+Proof.
+  unfold nv_hist. cbn [no_return].
+  repeat match goal with
+  | |- _ /\ _ => split
+  | |- match handle_msg ?a ?b ?c ?d with _ => _ end => let r := eval vm_compute in (handle_msg a b c d) in change (handle_msg a b c d) with r; cbv iota beta
+  end; try exact I; try (intros Hp; vm_compute in Hp; discriminate).
+  all: intros _ _ _ Hh e He; vm_compute in He; try discriminate; injection He as <-; vm_compute; try discriminate.
+Qed.
+
+Print Assumptions heap_safe.
+Print Assumptions one_entry_per_name.
+Print Assumptions lookup_agrees.
+Print Assumptions info_lists.
+Print Assumptions info_prod_partial.
+Print Assumptions info_prod_refuted.
+Print Assumptions updated_flag.
